@@ -2,7 +2,7 @@
    integers, the output a list of tagged integer records.  This file decodes
    VM cases, drives the model (Sim.v) exactly as the harness drives gmars, and
    encodes the observables.  Definitions only. *)
-From GM Require Export Sim.
+From GM Require Export Sim Recorder.
 Open Scope Z_scope.
 
 Definition rd (A : Type) := list Z -> option (A * list Z).
@@ -135,6 +135,36 @@ Fixpoint step_loop (fl : Z) (k : nat) (s : sim) (out : list (list Z)) : sim * li
 
 Definition enc_bools (l : list bool) : list Z := map (fun b : bool => if b then 1 else 0) l.
 
+Definition rtype_of (n : Z) : option rtype :=
+  match n with
+  | 0 => Some SimReset | 1 => Some CycleStart | 2 => Some CycleEnd | 3 => Some WarriorSpawn
+  | 4 => Some WarriorTaskPop | 5 => Some WarriorTaskPush | 6 => Some WarriorTaskTerminate
+  | 7 => Some WarriorTerminate | 8 => Some WarriorRead | 9 => Some WarriorWrite
+  | 10 => Some WarriorDecrement | 11 => Some WarriorIncrement | _ => None
+  end.
+Fixpoint dec_reports (l : list Z) : list report :=
+  match l with
+  | t :: c :: w :: a :: rest =>
+    match rtype_of t with
+    | Some ty => mkR ty c w (Z.to_N a) :: dec_reports rest
+    | None => dec_reports rest
+    end
+  | _ => []
+  end.
+(* the report stream the attached StateRecorder saw, read back from the records *)
+Definition stream_of (out : list (list Z)) : list report :=
+  flat_map (fun r => match r with
+                     | 2 :: _ :: 0 :: reps => dec_reports reps
+                     | 4 :: reps => dec_reports reps
+                     | _ => []
+                     end) out.
+Definition recorder_rec (bc : bcase) (out : list (list Z)) : list (list Z) :=
+  let M := c_size (bc_cfg bc) in
+  match rec_fold M (map (fun w => length (bw_code w)) (bc_ws bc)) false rec_empty (stream_of out) with
+  | None => []
+  | Some r => [[13] ++ flat_map (fun a => let x := rec_get r a in [Z.of_N (fst x); snd x]) (nseq M)]
+  end.
+
 (* one stepped battle on simulator s: per-cycle records, final observables, optional dump *)
 Definition stepped (bc : bcase) (s : sim) (out : list (list Z)) : option sim * list (list Z) :=
   let fl := bc_flags bc in
@@ -154,7 +184,8 @@ Definition run_bcase (bc : bcase) : list (list Z) :=
     | (Some s, out) =>
       match stepped bc s out with
       | (None, out1) => out1
-      | (Some s1, out1) =>
+      | (Some s1, out1a) =>
+        let out1 := if flag fl 5 then out1a ++ recorder_rec bc out1a else out1a in
         (* bit6: a second battle on the same simulator after Reset and re-spawn *)
         let again :=
             if flag fl 6 then
